@@ -434,14 +434,15 @@ def track_dropped_dynamic(mon, prev, snap, tx):
                 mon.dropped_dynamic_producers.add(s2)
 
 
-def make_monitor(defer_cap=100, extra=()):
+def make_monitor(defer_cap=100, extra=(), dropped=None):
     from .commitmon import CommitMonitor
 
     mon = CommitMonitor([track_dropped_dynamic, check_structure, check_transitions,
                          check_dispatch, *extra])
     mon.defer_cap = defer_cap
     mon.decision_classes = set()
-    mon.dropped_dynamic_producers = set()
+    # May be shared between the builds of one history: a stale cached value survives restarts.
+    mon.dropped_dynamic_producers = dropped if dropped is not None else set()
     mon.phase_end_checkers = [check_phase_end]
     return mon
 
